@@ -126,6 +126,33 @@ Proof.
   rewrite Z1, Z2. reflexivity.
 Qed.
 
+Lemma deleted_clients_close_all l : deleted_clients (flat_map close_events l) = map a_client l.
+Proof.
+  induction l as [|a l IH]; [reflexivity|]. cbn [flat_map map]. unfold deleted_clients in *. rewrite flat_map_app.
+  fold (deleted_clients (close_events a)). rewrite deleted_clients_close, IH. reflexivity.
+Qed.
+
+Lemma adel_keys {V} c (l : list (addr * V)) x : In x (map fst (adel addr_eqb c l)) -> In x (map fst l) /\ x <> c.
+Proof.
+  rewrite adel_filter. intros H. apply in_map_iff in H as (kv & <- & Hin). apply filter_In in Hin as [Hin Hne].
+  split; [apply in_map; exact Hin|]. intros E. rewrite E, addr_eqb_refl in Hne. discriminate.
+Qed.
+
+Lemma fold_adel_keys {V} (exp : list (addr * V)) ks x :
+  In x (map fst (fold_right (fun c e => adel addr_eqb c e) exp ks)) -> In x (map fst exp) /\ ~ In x ks.
+Proof.
+  induction ks as [|k ks IH]; cbn [fold_right]; intros H; [split; [exact H|intros []]|].
+  apply adel_keys in H as [H Hne]. apply IH in H as [H1 H2]. split; [exact H1|]. intros [E|Hc]; [congruence|contradiction].
+Qed.
+
+Lemma fold_adel_all {V} (exp : list (addr * V)) ks :
+  (forall k, In k (map fst exp) -> In k ks) -> fold_right (fun c e => adel addr_eqb c e) exp ks = [].
+Proof.
+  intros H. destruct (fold_right (fun c e => adel addr_eqb c e) exp ks) as [|[k v] r] eqn:E; [reflexivity|exfalso].
+  assert (Hin : In k (map fst (fold_right (fun c e => adel addr_eqb c e) exp ks))) by (rewrite E; left; reflexivity).
+  apply fold_adel_keys in Hin as [H1 H2]. apply H2. apply H. exact H1.
+Qed.
+
 Definition cfg_seconds (cfg : config) : Prop := exists k, cfg_alloc_lifetime cfg = k * sec.
 
 Lemma granted_whole cfg l : cfg_seconds cfg -> granted_lifetime cfg l / sec * sec = granted_lifetime cfg l.
@@ -138,7 +165,7 @@ Qed.
 
 Lemma now_step cfg s e s' acts : step cfg s e = (s', acts) -> now s' = now s + ev_dt e.
 Proof.
-  intros H. destruct e as [src tid c r unk|src p d|src n d|relay from d|dt|relay]; cbn [ev_dt]; rewrite ?Z.add_0_r.
+  intros H. destruct e as [src tid c r unk|src p d|src n d|relay from d|dt|relay|csrc|]; cbn [ev_dt]; rewrite ?Z.add_0_r.
   - pose proof (req_locality cfg s src tid c r unk s' acts H) as L. 
     cbn [step] in H. destruct unk; [inversion H; reflexivity|].
     destruct r as [tr lt fam df rp ep rt mt|lt fam|peers|n p|]; try (inversion H; reflexivity);
@@ -152,6 +179,8 @@ Proof.
   - cbn [step] in H. apply h_peer_spec in H as [-> _]. reflexivity.
   - cbn [step] in H. unfold h_tick in H. destruct (tick_allocs _ _). inversion H; reflexivity.
   - cbn [step] in H. unfold h_relay_err in H. destruct (find_relay relay (allocs s)); inversion H; reflexivity.
+  - cbn [step] in H. unfold h_ctl_close in H. destruct (find_alloc csrc (allocs s)); inversion H; reflexivity.
+  - cbn [step] in H. inversion H; reflexivity.
 Qed.
 
 Lemma add_perm_dl a i dl a' ev : add_perm a i dl = (a', ev) -> a_dl a' = a_dl a /\ a_client a' = a_client a.
@@ -220,7 +249,7 @@ Section C06.
     { intros exp1 H1. rewrite (filter_live _ _ H1 Hdl'). exact H1. }
     assert (Same : s' = s -> Permutation exp (dlmap (allocs s'))) by (intros ->; exact Hp).
     unfold c06_update. cbn [os_ev os_acts].
-    destruct e as [src tid c r unk|src p d|src n d|relay from d|dt|relay].
+    destruct e as [src tid c r unk|src p d|src n d|relay from d|dt|relay|csrc|].
     - destruct r as [tr lt fam df rp ep rt mt|lt fam|peers|n p|].
       + (* Allocate *)
         apply Fin. cbn [step] in Hs. cbn [ev_dt] in Hnow. rewrite Z.add_0_r in Hnow.
@@ -274,6 +303,12 @@ Section C06.
     - apply Fin. cbn [step] in Hs. unfold h_relay_err in Hs.
       destruct (find_relay relay (allocs s)) as [a|] eqn:Hf; inversion Hs; subst; clear Hs; [|cbn; exact Hp].
       rewrite deleted_clients_close. cbn [fold_right allocs set_allocs]. apply adel_perm; assumption.
+    - apply Fin. cbn [step] in Hs. unfold h_ctl_close in Hs.
+      destruct (find_alloc csrc (allocs s)) as [a|] eqn:Hf; inversion Hs; subst; clear Hs; [|cbn; exact Hp].
+      rewrite deleted_clients_close. cbn [fold_right allocs set_allocs]. apply adel_perm; assumption.
+    - apply Fin. cbn [step] in Hs. inversion Hs; subst; clear Hs. cbn [allocs set_allocs dlmap map].
+      rewrite deleted_clients_close_all, fold_adel_all; [constructor|].
+      intros k Hk. rewrite <- dlmap_keys. eapply Permutation_in; [apply Permutation_map; exact Hp|exact Hk].
   Qed.
 End C06.
 
@@ -297,7 +332,7 @@ Section C06b.
     | _ => true
     end = true.
   Proof.
-    intros Hinv Hp Hs. destruct e as [src tid c r unk|? ? ?|? ? ?|? ? ?|?|?]; try reflexivity.
+    intros Hinv Hp Hs. destruct e as [src tid c r unk|? ? ?|? ? ?|? ? ?|?|?|?|]; try reflexivity.
     destruct r as [tr lt fam df rp ep rt mt|lt fam|?|? ?|]; try reflexivity; cbn [step] in Hs.
     - destruct unk; [inversion Hs; subst; reflexivity|].
       destruct (authenticate cfg s c) as [uid|code ch] eqn:Ha; [|inversion Hs; subst; reflexivity].
